@@ -14,10 +14,13 @@ import threading
 import time
 
 VERIF = os.path.dirname(os.path.dirname(os.path.abspath(__file__)))
-BUILD = os.path.join(VERIF, 'build')
-REPLAYS = os.path.join(VERIF, 'replays')
-EVIDENCE = os.path.join(VERIF, 'evidence')
-WORK = os.path.join(VERIF, 'work')
+# BGSIM_BUILD / BGSIM_OUT / BASEGRAPH_INCLUDE redirect build output, results and the library headers: used by the
+# self-tests (mutants, seeded changes in scratch copies) so that they never touch build/, evidence/ or /repo.
+BUILD = os.environ.get('BGSIM_BUILD') or os.path.join(VERIF, 'build')
+OUT = os.environ.get('BGSIM_OUT') or VERIF
+REPLAYS = os.path.join(OUT, 'replays')
+EVIDENCE = os.path.join(OUT, 'evidence')
+WORK = os.path.join(OUT, 'work')
 KNOWN = os.path.join(VERIF, 'known_findings.json')
 NCPU = os.cpu_count() or 8
 
@@ -33,20 +36,20 @@ SPECS = {
     'C01': dict(level='exploration', q=[('g2', 120000), ('gd', 6000)], t=[('g2', 4000000), ('gd', 150000), ('ca', 150000)], stub=STUB_IO),
     'C02': dict(level='exploration', q=[('g2', 120000), ('gd', 6000)], t=[('g2', 4000000), ('gd', 150000), ('ca', 150000)], stub=STUB_IO),
     'C03': dict(level='exploration', q=[('g2', 120000), ('gd', 6000)], t=[('g2', 4000000), ('gd', 150000), ('ca', 150000)], stub=STUB_IO),
-    'C04': dict(level='exploration', q=[('g2', 150000), ('gd', 8000)], t=[('g2', 5000000), ('gd', 200000), ('ca', 200000)], stub=STUB_GRAPH),
-    'C05': dict(level='exploration', q=[('g2', 150000), ('gd', 8000)], t=[('g2', 5000000), ('gd', 200000), ('ca', 200000)], stub=STUB_GRAPH),
+    'C04': dict(level='exploration', q=[('g2', 400000), ('gd', 12000)], t=[('g2', 5000000), ('gd', 200000), ('ca', 200000)], stub=STUB_GRAPH),
+    'C05': dict(level='exploration', q=[('g2', 110000), ('gd', 6000)], t=[('g2', 5000000), ('gd', 200000), ('ca', 200000)], stub=STUB_GRAPH),
     'C06': dict(level='exploration', q=[('g2', 100000), ('gd', 5000)], t=[('g2', 3000000), ('gd', 120000), ('ca', 120000)], stub=STUB_IO),
     'C07': dict(level='exploration', q=[('gd', 12000), ('ca', 12000), ('g2', 60000)], t=[('gd', 300000), ('ca', 300000), ('g2', 2000000)], stub=STUB_GRAPH),
-    'C13': dict(level='exploration', q=[('g2', 40000), ('gd', 3000)], t=[('g2', 1200000), ('gd', 60000), ('ca', 60000)], stub=STUB_IO),
-    'C14': dict(level='exploration', q=[('g2', 40000), ('gd', 3000)], t=[('g2', 1200000), ('gd', 60000), ('ca', 60000)], stub=STUB_IO),
+    'C13': dict(level='exploration', q=[('g2', 120000), ('gd', 8000), ('ca', 8000)], t=[('g2', 1200000), ('gd', 60000), ('ca', 60000)], stub=STUB_IO),
+    'C14': dict(level='exploration', q=[('g2', 120000), ('gd', 8000), ('ca', 8000)], t=[('g2', 1200000), ('gd', 60000), ('ca', 60000)], stub=STUB_IO),
     'C15': dict(level='fault_enumeration', q=[('g2', 12000), ('g2w', 6000), ('gd', 1500), ('ca', 1500)],
                 t=[('g2', 300000), ('g2w', 150000), ('gd', 30000), ('ca', 30000), ('vg', 400)], stub=STUB_IO),
     'C16': dict(level='exploration', q=[('g2', 120000), ('gd', 6000)], t=[('g2', 4000000), ('gd', 150000), ('ca', 150000)], stub=STUB_GRAPH),
     'C17': dict(level='exploration', q=[('gd', 6000), ('ca', 6000), ('g2', 6000)],
                 t=[('gd', 150000), ('ca', 150000), ('g2', 150000), ('g0', 150000), ('c2', 150000), ('g14', 150000), ('vg', 300)], stub=STUB_IO),
-    'C18': dict(level='exploration', q=[('ts', 1500)], t=[('ts', 60000)],
+    'C18': dict(level='exploration', q=[('ts', 50000)], t=[('ts', 1500000)],
                 stub=STUB_GRAPH + ['the order in which reader threads run (seeded serialising scheduler, literal pick sequence in the plan)']),
-    'C19': dict(level='exploration', q=[('g2', 20000)], t=[('g2', 600000), ('gd', 20000)],
+    'C19': dict(level='exploration', q=[('g2', 150000), ('gd', 4000)], t=[('g2', 6000000), ('gd', 100000), ('ca', 100000)],
                 stub=['logical clock = number of getOutNeighbours calls seen by the instrumented graph type Counting<G>; step budget = the property bound']),
 }
 
@@ -76,7 +79,9 @@ def binpath(cfg):
 
 def build(configs):
     real = sorted({{'g2w': 'g2', 'vg': 'g2'}.get(c, c) for c in configs})
-    cmd = ['make', '-C', VERIF, '-j%d' % NCPU] + ['cfg-' + c for c in real]
+    cmd = ['make', '-C', VERIF, '-j%d' % NCPU, 'B=' + BUILD] + ['cfg-' + c for c in real]
+    if os.environ.get('BASEGRAPH_INCLUDE'):
+        cmd.append('BASEGRAPH_INCLUDE=' + os.environ['BASEGRAPH_INCLUDE'])
     if 'ts' in real:
         cmd.append('canary')
     t0 = time.time()
